@@ -10,7 +10,7 @@ Section HInd.
   Hypothesis Hdefer : forall c, P (HDefer c).
   Hypothesis Hbreak : forall l, P (HBreak l).
   Hypothesis Hcont : forall l, P (HContinue l).
-  Hypothesis Htry : forall l, P (HTry l).
+  Hypothesis Htry : forall k l, P (HTry k l).
   Hypothesis Hblock : forall sid b, Forall P b -> P (HBlock sid b).
   Hypothesis Hloop : forall sid c b, Forall P b -> P (HLoop sid c b).
   Hypothesis Hif : forall a b, Forall P a -> Forall P b -> P (HIf a b).
@@ -26,7 +26,7 @@ Section HInd.
     | HDefer c => Hdefer c
     | HBreak l => Hbreak l
     | HContinue l => Hcont l
-    | HTry l => Htry l
+    | HTry k l => Htry k l
     | HBlock sid b => Hblock sid b (go b)
     | HLoop sid c b => Hloop sid c b (go b)
     | HIf a b => Hif a b (go a) (go b)
@@ -104,7 +104,7 @@ Qed.
 Definition not_defer (h : hstmt) : Prop := forall c, h <> HDefer c.
 
 Lemma compile_list_defer f sid st pend c r :
-  compile_list f sid st pend (HDefer c :: r) = compile_list f sid st (pend ++ [c]) r.
+  compile_list f sid st pend (HDefer c :: r) = compile_list f sid st (pend ++ rev c) r.
 Proof. reflexivity. Qed.
 
 Lemma compile_list_cons f sid st pend h r : not_defer h ->
@@ -116,7 +116,7 @@ Lemma compile_list_cons f sid st pend h r : not_defer h ->
 Proof. intros H. destruct h; try reflexivity. exfalso. eapply H. reflexivity. Qed.
 
 Lemma hexec_list_defer f pend c r o :
-  hexec_list f pend (HDefer c :: r) o = hexec_list f (c :: pend) r o.
+  hexec_list f pend (HDefer c :: r) o = hexec_list f (c ++ pend) r o.
 Proof. reflexivity. Qed.
 
 Lemma hexec_list_cons f pend h r o : not_defer h ->
